@@ -278,7 +278,18 @@ impl Global {
         let new_epoch = global_epoch.successor();
         #[cfg(feature = "circ_verif")]
         crate::verif::yp(crate::verif::site::ADV_STORE);
-        self.epoch.store(new_epoch, Ordering::Release);
+        // Unlinking a removed participant during the traversal above defers its destruction,
+        // which can fill the local bag and, inside a collection, re-pin this thread to a later
+        // epoch. The global epoch may then run more than one step ahead of `global_epoch`
+        // before we get here: never move it backwards.
+        if let Err(current) = self.epoch.compare_exchange(
+            global_epoch,
+            new_epoch,
+            Ordering::Release,
+            Ordering::Relaxed,
+        ) {
+            return current;
+        }
         #[cfg(feature = "circ_verif")]
         crate::verif::ev(crate::verif::event::EPOCH_ADVANCE, new_epoch.value(), self as *const Global as usize);
         new_epoch
